@@ -232,7 +232,7 @@ class Interp:
     m = int(e.params.get('rounding_method', 1))
     if m == 1:
       return vec(self.D.s_round_even, *i)
-    raise Unsupported('round away-from-zero')
+    return vec(self.D.s_round_away, *i)
 
   def p_integer_pow(self, e, i):
     y = e.params['y']
@@ -265,6 +265,12 @@ class Interp:
     vb = val(b)
     if vb is not None:
       vb = Fraction(vb)
+      # exponent constants are float roundings of +-1/k (k <= 16): modelled as exactly +-1/k
+      if vb != 0 and vb.denominator != 1:
+        k = round(1 / abs(float(vb)))
+        if 1 <= k <= 16 and abs(abs(float(vb)) - 1.0 / k) < 1e-6 / k:
+          vb = Fraction(1, k) if vb > 0 else Fraction(-1, k)
+          b = vb
       if vb.denominator == 1 and abs(vb.numerator) <= 16:
         return self.D.s_ipow(R.real(a) if is_z3(a) else Fraction(a), int(vb))
       if vb == Fraction(1, 2):
